@@ -1,5 +1,5 @@
 /-
-  ZlModel.Names — hand-written models of eight list-scanning rule bodies whose content is pure string
+  ZlModel.Names — hand-written models of fourteen list-scanning rule bodies whose content is pure string
   arithmetic (no parser, no public-suffix list), in four duplicated pairs:
 
     e_rfc_dnsname_label_too_long   / e_dnsname_label_too_long        (lints/rfc, lints/cabf_br)
@@ -63,8 +63,35 @@ def ianSpaceDNS (v : View) : Status := anyFinding isSpace Status.error v.ianDns
 def sanUriNotIA5 (v : View) : Status := anyFinding notAscii Status.error v.uris
 def ianUriNotIA5 (v : View) : Status := anyFinding notAscii Status.error v.ianUris
 
-/-- the eight verdicts in the order of the driver's `names` op -/
+/-! six more single-copy DNS-name rules (lints/cabf_br, lints/community) -/
+
+/-- `wildcardNotInLeftLabel`: a `*` in any label but the first -/
+def wildcardNotInLeftLabel (d : Bytes) : Bool := ((splitDot d).drop 1).any (fun l => l.contains 42)
+/-- `wildcardInLeftLabelIncorrect`: the first label contains `*` but is not exactly `*` -/
+def wildcardInLeftLabelIncorrect (d : Bytes) : Bool :=
+  match splitDot d with
+  | l :: _ => l.contains 42 && l != [42]
+  | [] => false
+def hasUnderscore (d : Bytes) : Bool := d.contains 95
+def hasNull (d : Bytes) : Bool := d.contains 0
+def startsWithPeriod (d : Bytes) : Bool := d.head? == some 46
+/-- `for i := 1; i < len(dns); i++ { dns[i] == '*' }` -/
+def wildcardNotFirst (d : Bytes) : Bool := (d.drop 1).contains 42
+
+/-- e_dnsname_wildcard_only_in_left_label: the CN is judged unconditionally, then the SAN names -/
+def wildcardOnlyLeft (v : View) : Status :=
+  if wildcardNotInLeftLabel v.cn then Status.error else anyFinding wildcardNotInLeftLabel Status.error v.dns
+def leftLabelWildcard (v : View) : Status :=
+  if wildcardInLeftLabelIncorrect v.cn then Status.error else anyFinding wildcardInLeftLabelIncorrect Status.error v.dns
+/-- e_underscore_not_permissible_in_dnsname and its dated predecessor e_no_underscores_before_1_6_2 share one body -/
+def underscoreInDNS (v : View) : Status := anyFinding hasUnderscore Status.error v.dns
+def sanNullChar (v : View) : Status := anyFinding hasNull Status.error v.dns
+def sanStartsWithPeriod (v : View) : Status := anyFinding startsWithPeriod Status.error v.dns
+def sanWildcardNotFirst (v : View) : Status := anyFinding wildcardNotFirst Status.error v.dns
+
+/-- the verdicts in the order of the driver's `names` op -/
 def verdicts (v : View) : List Status :=
-  [rfcLabelTooLong v, brLabelTooLong v, rfcEmptyLabel v, brEmptyLabel v, sanSpaceDNS v, ianSpaceDNS v, sanUriNotIA5 v, ianUriNotIA5 v]
+  [rfcLabelTooLong v, brLabelTooLong v, rfcEmptyLabel v, brEmptyLabel v, sanSpaceDNS v, ianSpaceDNS v, sanUriNotIA5 v, ianUriNotIA5 v,
+   wildcardOnlyLeft v, leftLabelWildcard v, underscoreInDNS v, sanNullChar v, sanStartsWithPeriod v, sanWildcardNotFirst v]
 
 end Zl.Names
